@@ -277,9 +277,9 @@ def process(ck, cases, results, replay_mode=False):
             ck.hist("stage:" + st, outcome_class(v))
         ck.count("stages_run", len(stages))
         if "parse_strict" in stages:
-            ck.hist("ncl_by_class_parse", "%s:%s" % (cls.split(":")[0], "parsed" if stages["parse_strict"].startswith("ok") else "parse-error"))
+            ck.hist("ncl_by_class_parse", "%s:%s" % (":".join(cls.split(":")[:2]), "parsed" if stages["parse_strict"].startswith("ok") else "parse-error"))
         if "typecheck_strict" in stages:
-            ck.hist("ncl_by_class_typecheck_strict", "%s:%s" % (cls.split(":")[0], outcome_class(stages["typecheck_strict"])))
+            ck.hist("ncl_by_class_typecheck_strict", "%s:%s" % (":".join(cls.split(":")[:2]), outcome_class(stages["typecheck_strict"])))
         for key, text in fs:
             key = skey(key)
             ck.hist("findings_by_key", key)
@@ -464,6 +464,11 @@ def big_exponent(base, e):
     return ev > 64 and base not in ("0", "1", "-1")
 
 
+def pick_idx(rng):
+    """small indices most of the time (in-bounds cases), edge values otherwise"""
+    return rng.choice(IDX[:7]) if rng.chance(7, 10) else rng.choice(IDX)
+
+
 def ops_cases(rng, n):
     """[(model case, nickel program, kind)]"""
     out = []
@@ -479,15 +484,15 @@ def ops_cases(rng, n):
             out.append(("num pow %s %s" % (qa, qb), "%%pow%% %s %s" % (a, b), k))
         elif k == "substr":
             n_ = rng.below(7)
-            (a, qa), (b, qb) = rng.choice(IDX), rng.choice(IDX)
+            (a, qa), (b, qb) = pick_idx(rng), pick_idx(rng)
             out.append(("substr %d %s %s" % (n_, qa, qb), '%%string/substr%% "%s" %s %s' % (LETTERS[:n_], a, b), k))
         elif k == "slice":
             n_ = rng.below(6)
-            (a, qa), (b, qb) = rng.choice(IDX), rng.choice(IDX)
+            (a, qa), (b, qb) = pick_idx(rng), pick_idx(rng)
             out.append(("slice %d %s %s" % (n_, qa, qb), "%%array/slice%% %s %s [%s]" % (a, b, ", ".join(str(i) for i in range(n_))), k))
         elif k == "at":
             n_ = rng.below(6)
-            (a, qa) = rng.choice(IDX)
+            (a, qa) = pick_idx(rng)
             out.append(("at %d %s" % (n_, qa), "%%array/at%% [%s] %s" % (", ".join(str(i) for i in range(n_)), a), k))
         elif k == "gen":
             (a, qa) = rng.choice([x for x in IDX if x[1] in ("0", "1", "2", "5", "-1", "1/2", "5/2", "4294967296", "18446744073709551616", "1" + "0" * 30)])
@@ -647,15 +652,15 @@ def lexer_inputs(ck, n):
     out = []
     for _, rel, data in files[::3]:
         out.append(data.decode("utf-8", "replace"))
-    frag = ['"', 'm%"', '"%', 'm%%"', '"%%', "%{", "%%{", "}", "{", '"%{', '"%%{', "%", "%%", "\\n", "\\q", "\\x41", "\\xff", "\\é", " ", "a", "# c\n", "x-s%\"", "'\"", "\n", "'m%\"", "\r", "\r\n", "1", "e", "'Tag"]
+    frag = ['"', 'm%"', '"%', 'm%%"', '"%%', "%{", "%%{", "}", "{", '"%{', '"%%{', "%", "%%", "\\n", "\\q", "\\x41", "\\xff", "\\x9", "\\é", "\\%", "\\\"", " ", "a", "# c\n", "x-s%\"", "'\"", "\n", "'m%\"", "\r", "\r\n", "1", "e", "'Tag"]
     while len(out) < n:
-        c = rng.below(4)
-        if c == 0:
+        c = rng.below(6)
+        if c <= 2:
             out.append("".join(rng.choice(frag) for _ in range(rng.range(1, 14))))
-        elif c == 1:
+        elif c == 3:
             g = gen.G(rng.fork())
             out.append(gen.mutate_tokens(rng, g.program(2))[0])
-        elif c == 2:
+        elif c == 4:
             out.append(gen.mutate_tokens(rng, rng.choice(files)[2].decode("utf-8", "replace"))[0])
         else:
             out.append(gen.token_soup(rng, rng.range(1, 20)))
